@@ -19,7 +19,7 @@
 (***************************************************************************)
 EXTENDS Naturals, Sequences, FiniteSets, TLC, Json
 
-CONSTANTS MaxLen, EMIT, FullInit
+CONSTANTS MaxLen, EMIT, FullInit, Cover
 
 VARIABLES cfg, hist, init0
 vars == <<cfg, hist, init0>>
@@ -77,7 +77,8 @@ Apply(c, g) == [g EXCEPT ![c.scope] = ApplyScope(c, g[c.scope])]
 Init ==
   /\ IF FullInit
      THEN cfg \in [Scopes -> InitScopes]
-     ELSE \E x \in InitScopes, y \in {z \in InitScopes : ~z.afile /\ z.dprompt = "unset" /\ z.mprompt = "unset"} :
+     ELSE \E x \in {z \in InitScopes : Cover => (z.dprompt = z.mprompt /\ (z.afile => z.aforeign))},
+             y \in {z \in InitScopes : ~z.afile /\ z.dprompt = "unset" /\ z.mprompt = "unset"} :
              \/ cfg = [s \in Scopes |-> IF s = "repo" THEN x ELSE y]
              \/ cfg = [s \in Scopes |-> IF s = "global" THEN x ELSE y]
   /\ hist = <<>>
